@@ -100,11 +100,24 @@ def check(ai: int, fwd: bool) -> bool:
                 xtuml.relate(insts[k], insts[k - 1], 1, 'precedes')
             for k in range(N - 1, 0, -1):
                 xtuml.unrelate(insts[k], insts[k - 1], 1, 'precedes')
+            # ... and members that were linked on BOTH sides to an instance that has been deleted since
+            for k in range(0, N - 1, 2):
+                x = m.new(KIND, Name='gone%d' % k)
+                xtuml.relate(insts[k], x, 1, 'precedes')
+                xtuml.relate(x, insts[k + 1], 1, 'precedes')
+                xtuml.delete(x)
         for i, s in enumerate(succ):
             if s >= 0:
                 # navigating from i across 'precedes' reaches its successor
                 xtuml.relate(insts[i], insts[s], 1, 'precedes')
         qs = m.select_many(KIND, lambda sel: (sub >> insts.index(sel)) & 1)
+        if PRE and len(qs) >= 2:
+            # the set itself has a history: built with a foreign last member, which is removed before the real last member is added
+            members = list(qs)
+            extra = m.new(KIND, Name='foreign')
+            qs = xtuml.QuerySet(members[:-1] + [extra])
+            qs.remove(extra)
+            qs.add(members[-1])
         rot = PARAMS.get('rotate', 0)
         if rot:
             members = list(qs)
